@@ -277,7 +277,7 @@ def _mk_kinds(family, validator):
         pos = c.choose([a for a, _ in ARGS] + ['__top__', '__args__'], 'position')
         kind = c.choose(list(range(len(KINDS))), 'value_kind')
         v = KINDS[kind]
-        args = dict(VALID_MSGPACK if family == 'msgpack' else VALID)
+        args = dict(VALID_MSGPACK if family.startswith('msgpack') else VALID)
         if pos == '__top__':
             doc = v
         elif pos == '__args__':
@@ -301,13 +301,20 @@ def _mk_kinds(family, validator):
                 if isinstance(o, int) and not isinstance(o, bool) and not (-2 ** 63 <= o < 2 ** 64):
                     return str(o)
                 return o
+            if family == 'msgpackrpc':
+                if pos == '__top__':
+                    doc = v
+                elif pos == '__args__':
+                    doc = [0, 1, 'm', v]
+                else:
+                    doc = [0, 1, 'm', [args[k] for k, _ in ARGS]]
             body, ctype = msgpack.packb(enc(doc)), 'application/x-msgpack'
         out, seen, resp, calls = _run(c, family, validator, 'POST', '/', '', body, ctype)
         _verdict(c, family, out, seen, resp, calls, detail=(pos, repr(v)))
     return ob
 
 
-for _f in ('json', 'yaml', 'msgpack'):
+for _f in ('json', 'yaml', 'msgpack', 'msgpackrpc'):
     for _v in ('soft', None):
         _mk_kinds(_f, _v)
 
@@ -446,8 +453,10 @@ def _mk_bytes(family):
                  'xml': ('<tns:m xmlns:tns="%s">%s</tns:m>' % (TNS, XML_ARGS)).encode(),
                  'soap11': soap_env(SOAP11_NS, '<tns:m>%s</tns:m>' % XML_ARGS),
                  'soap12': soap_env(SOAP12_NS, '<tns:m>%s</tns:m>' % XML_ARGS),
+                 'msgpackrpc': msgpack.packb([0, 1, 'm', [VALID_MSGPACK[k] for k, _ in ARGS]]),
                  'http': b''}[family]
         ctypes = {'json': 'application/json', 'yaml': 'text/yaml', 'msgpack': 'application/x-msgpack', 'xml': 'text/xml',
+                  'msgpackrpc': 'application/x-msgpack',
                   'soap11': 'text/xml', 'soap12': 'application/soap+xml', 'http': 'text/plain'}
         case = c.choose(['invalid_utf8', 'trailing_data', 'nul_bytes', 'bogus_charset', 'utf16_charset', 'bom', 'empty',
                          'random'], 'case')
